@@ -68,6 +68,8 @@ pub fn apply_alpha<P: Px>(px: &mut [P], w: usize, h: usize, ap: &AlphaPat) {
     let (zx, zy) = if w * h > 0 { (rng.below(w as u64) as usize, rng.below(h as u64) as usize) } else { (0, 0) };
     let split = if w > 0 { rng.below(w as u64 + 1) as usize } else { 0 };
     let comps = P::components_mut(px);
+    let mut run_left = 0usize;
+    let mut run_val = 0.0f64;
     for y in 0..h {
         for x in 0..w {
             let i = (y * w + x) * nc + nc - 1;
@@ -94,7 +96,17 @@ pub fn apply_alpha<P: Px>(px: &mut [P], w: usize, h: usize, ap: &AlphaPat) {
                 8 => {
                     if P::kind() == CompKind::F32 { [0.0, 0.001, 0.01, 0.5][rng.below(4) as usize] } else { rng.below(4) as f64 }
                 }
-                _ => if x < split { 0.0 } else { amax },
+                9 => if x < split { 0.0 } else { amax },
+                10 => if x < split { amax } else { 0.0 },
+                _ => {
+                    // runs of opaque / transparent / partial pixels of random length 1..12 along each row
+                    if run_left == 0 {
+                        run_left = 1 + rng.below(12) as usize;
+                        run_val = match rng.below(3) { 0 => 0.0, 1 => amax, _ => rnd(&mut rng) };
+                    }
+                    run_left -= 1;
+                    run_val
+                }
             };
             comps[i] = P::C::from_f64(a);
         }
